@@ -724,6 +724,10 @@ pub fn synthetic_project(seed: u64) -> Project {
         extra_keys.push(["Calc: Calc", "CalcUser: CalcUser", "Limits: Limits"][rng.below(3)].into());
     }
     if rng.chance(1, 8) {
+        extra_decls.push("export type MultiLine = `first line\nsecond line ${string}\n`;\nexport type HasMultiLine = { text: MultiLine; plain: `a\nb` };".into());
+        extra_keys.push("HasMultiLine: HasMultiLine".into());
+    }
+    if rng.chance(1, 8) {
         // type names that are also members of Object.prototype (ordinary, valid type names)
         let a = names[rng.below(n_types)].clone();
         extra_decls.push(format!("export type constructor = {{ b: number; back?: {} }};\nexport type toString = {{ a: string; self?: toString }};\nexport type valueOf = {{ c: boolean }};\nexport type hasOwnProperty = valueOf | null;", a));
@@ -988,6 +992,13 @@ pub fn synthetic_project(seed: u64) -> Project {
             src.push_str(&format!("parse.buildParsers<{{ {} }}>();\n", keys.join("; ")));
         }
         files.insert(fname(k), src);
+    }
+    // a checkout with CRLF line ends (every line break inside a template literal type included)
+    if rng.chance(1, 8) {
+        let which: Vec<String> = files.keys().cloned().collect();
+        let f = rng.pick(&which).clone();
+        let c = files[&f].replace('\n', "\r\n");
+        files.insert(f, c);
     }
     if bare_pkg {
         files.insert("/p/node_modules/shared-types/index.ts".into(), "export type PkgId = string;\nexport type PkgMeta = { createdBy: PkgId; tags: string[] };\n".into());
